@@ -200,6 +200,14 @@ def run(ctx):
             if a.kind != b.kind or (a.kind == 'value' and not deep_typed_eq(b.val, a.val)[0]):
                 ctx.violation('serialisation-ignores-conditions', sub, i, {**wit, 'with_condition': a.brief(), 'without': b.brief()},
                               mech='into_data-differs')
+            # ... and goes by the DECLARED inner type, not by what the value happens to be: the raw input (an int for a float type,
+            # a list for a set type) is written as the inner type writes it
+            a2 = observe(env.into_data, v, T_cond)
+            b2 = observe(env.into_data, v, T_inner)
+            ctx.count('serialise_checked')
+            if a2.kind != b2.kind or (a2.kind == 'value' and not deep_typed_eq(b2.val, a2.val)[0]):
+                ctx.violation('serialisation-ignores-conditions', sub, i, {**wit, 'raw_value_with_condition': a2.brief(), 'raw_value_without': b2.brief()},
+                              mech='into_data-differs:raw-value')
         return verdict
 
     def body(i, rng, ty, T):
@@ -295,6 +303,29 @@ def run(ctx):
                         return
 
     drive.for_each_case(ctx, 'handlers', max(20, ctx.budget // 20), body_handlers, gen=lambda c, r: Ty('int'))
+
+    # instances that violate a field's condition (built unchecked, or assigned to afterwards): every spelling of convert re-checks
+    def body_unchecked_instances(i, rng, ty, T):
+        PT = env.m_types
+        frozen = rng.random() < 0.5
+        cls = type(f"KU{next(_serial)}", (env.PaneBase,), {'__annotations__': {'n': PT.PositiveInt, 'tag': str}, 'tag': 't', '__module__': __name__}, frozen=frozen)
+        bad = cls.make_unchecked(n=-5)
+        if not frozen and rng.random() < 0.5:
+            bad = cls(3)
+            bad.n = -5
+        good = cls(4)
+        for label, call in (('pane.convert(x, Cls)', lambda x: env.convert(x, cls)), ('Cls.from_obj(x)', lambda x: cls.from_obj(x)),
+                            ('Cls.from_data(x.into_data())', lambda x: cls.from_data(x.into_data())), ('make_converter(Cls).convert(x.into_data())', lambda x: env.make_converter(cls).convert(x.into_data())),
+                            ('convert([x], List[Cls])', lambda x: env.convert([x], t.List[cls]))):
+            ob, og = observe(call, bad), observe(call, good)
+            ctx.count('unchecked_instance_spellings')
+            ctx.case(('unchecked-instance', label[:18], ob.kind, og.kind), nontrivial=True)
+            if ob.kind != 'converr' or og.kind != 'value':
+                ctx.violation('condition-semantics', 'unchecked', i, {'spelling': label, 'instance_violating_the_condition': short(bad), 'outcome': ob.brief(),
+                                                                      'valid_instance_outcome': og.brief()}, mech='condition-not-rechecked:' + label.split('(')[0])
+                return
+
+    drive.for_each_case(ctx, 'unchecked', 30, body_unchecked_instances, gen=lambda c, r: Ty('int'))
 
     # the aliases shipped in pane.types
     def body_alias(i, rng, ty, T):
